@@ -74,6 +74,14 @@ def mergeCompat : List Input → Except Err Unit
         then .error .value
         else .ok ()
 
+/-- decidable equality of verdicts, so that closed examples can be checked by `decide` -/
+instance decEqVerdict : DecidableEq (Except Err Unit)
+  | .ok (), .ok () => isTrue rfl
+  | .error a, .error b =>
+    if h : a = b then isTrue (by rw [h]) else isFalse (by intro e; cases e; exact h rfl)
+  | .ok _, .error _ => isFalse (by intro e; cases e)
+  | .error _, .ok _ => isFalse (by intro e; cases e)
+
 /-- which branch decided (diagnostics for the correspondence) -/
 def decidedBy : List Input → String
   | [] => "empty"
